@@ -109,6 +109,13 @@ def predicted_has_method(sc: Scenario) -> dict:
                 if not has[k]:
                     has[k] = True
                     work.append(k)
+    if sc.dialect is not None:
+        # calls carry `dialect=`: the inherited dialect-aware method looks the packer up in
+        # self.__class__'s cache and compiles it for the RUNTIME class on a miss, so a subclass of a
+        # compiled class behaves as if it owned the method (classes are listed parents first)
+        for c in sc.classes:
+            if c.parent is not None and has[c.parent.name]:
+                has[c.name] = True
     return has
 
 
@@ -159,7 +166,7 @@ def gen_ty(rng, names, depth, allow_union=True, allow_opt=True):
 def gen_scenario(rng, sid, dialect_p=0.3) -> Scenario:
     sc = Scenario(sid)
     if rng.random() < dialect_p:
-        sc.dialect = rng.choice([True, False])
+        sc.dialect = rng.choice([True, False, "unset"])
     n = rng.randint(2, 6)
     for i in range(n):
         name = f"K{i}"
@@ -357,7 +364,10 @@ def scenario_src(sc: Scenario) -> str:
     # which has no default, so any order is fine.
     s = HEADER
     if sc.dialect is not None:
-        s += f"class Dl(Dialect):\n    serialize_by_alias = {sc.dialect}\n\n"
+        if sc.dialect == "unset":
+            s += "class Dl(Dialect):\n    omit_none = False\n\n"
+        else:
+            s += f"class Dl(Dialect):\n    serialize_by_alias = {sc.dialect}\n\n"
     for c in sc.classes:
         s += cls_src(sc, c) + "\n"
     for i, t in enumerate(sc.roots):
@@ -516,7 +526,7 @@ def coq_val(v) -> str:
 
 
 def coq_optb(b) -> str:
-    return "None" if b is None else ("(Some true)" if b else "(Some false)")
+    return "None" if b is None or b == "unset" else ("(Some true)" if b else "(Some false)")
 
 
 def coq_env(sc: Scenario, has=None) -> str:
